@@ -7,7 +7,7 @@
    property) and once with the open as-built deviation flags (known findings). *)
 EXTENDS SrcSyntax, Json
 
-CONSTANTS Family,     \* "ctl" | "scope" | "yf" | "panic"
+CONSTANTS Family,     \* "ctl" | "ctlx" | "eff" | "scope" | "yf" | "panic"
           MaxSize, TapeLen, MaxCalls, Budget,
           OpenFlags,  \* set of as-built flags that are open known findings
           Lazy        \* compose the last size level lazily inside Init
@@ -33,7 +33,12 @@ AYf == [simple |-> {Eff, IncA, Y(VarA)} \cup YFs,
         inits |-> {None}, posts |-> {None} \cup YFs, conds |-> {T0},
         ifinits |-> {None}, kinds |-> {"if", "for"}, jumps |-> {"break", "continue"}]
 APanic == [ACtl EXCEPT !.simple = @ \cup {[k |-> "panic"]}]
-A == CASE Family = "ctl" -> ACtl [] Family = "scope" -> AScope [] Family = "yf" -> AYf [] Family = "panic" -> APanic
+\* the control-flow family with every switch form: default first / no default, type switch, tag-less switch
+\* effects everywhere, effectful yield expressions (C02: the interleaving is the observation)
+ObsA == [k |-> "obs", id |-> 0, n |-> "a"]
+AEff == [ACtl EXCEPT !.simple = {Eff, IncA, Y(ObsA), Y(VarA)}, !.posts = {None, PAssign, Y(ObsA)}, !.inits = {None, Y(ObsA)}]
+ACtlX == [ACtl EXCEPT !.kinds = @ \cup {"switchd", "tswitch", "notag"}]
+A == CASE Family = "ctl" -> ACtl [] Family = "scope" -> AScope [] Family = "yf" -> AYf [] Family = "panic" -> APanic [] Family = "ctlx" -> ACtlX [] Family = "eff" -> AEff
 
 \* Go scoping: `a := ...` at most once per block and never in the function's top block
 \* (a is a parameter there: "no new variables on left side of :=")
